@@ -1348,3 +1348,146 @@ Theorem served_reachable : forall hmac parse cfg s conn line now tok key c uid c
   exists text, credential hmac s conn now line text uid /\ parse text = Some c /\
                (KnownClass (Some uid) c = false -> policy s (Some uid) c).
 Proof. intros. eapply served_outside_known; eauto. apply reachable_wf. assumption. Qed.
+
+(** * GRANT / REVOKE naming several event types *)
+
+(** one more single-type GRANT after what has been done so far *)
+Definition then_grant (r w : bool) (id : bytes) (acc : outcome * state) (t : bytes) : outcome * state :=
+  match acc with
+  | (OExec, s) => grant_loop s r w [t] id
+  | other => other
+  end.
+Definition then_revoke (r w : bool) (id : bytes) (acc : outcome * state) (t : bytes) : outcome * state :=
+  match acc with
+  | (OExec, s) => revoke_loop s r w [t] id
+  | other => other
+  end.
+
+Lemma fold_then_grant_stuck : forall r w id ts o s, o <> OExec ->
+  fold_left (then_grant r w id) ts (o, s) = (o, s).
+Proof. induction ts as [|t ts IH]; intros o s N; cbn [fold_left]; [reflexivity|]. destruct o; try contradiction; apply IH; discriminate. Qed.
+Lemma fold_then_revoke_stuck : forall r w id ts o s, o <> OExec ->
+  fold_left (then_revoke r w id) ts (o, s) = (o, s).
+Proof. induction ts as [|t ts IH]; intros o s N; cbn [fold_left]; [reflexivity|]. destruct o; try contradiction; apply IH; discriminate. Qed.
+
+(** A GRANT over several event types is the sequence of the single-type GRANTs, each one
+    reading the permissions the previous ones left (and stopping at the first that fails). *)
+Theorem grant_many_eq_fold : forall ts s r w id,
+  grant_loop s r w ts id = fold_left (then_grant r w id) ts (OExec, s).
+Proof.
+  induction ts as [|t ts IH]; intros s r w id; [reflexivity|].
+  cbn [fold_left then_grant]. cbn [grant_loop].
+  destruct (negb (smem t (st_schemas s))).
+  - symmetry. apply fold_then_grant_stuck. discriminate.
+  - destruct (grant_permission s id t _) as [[e|] s'].
+    + symmetry. apply fold_then_grant_stuck. discriminate.
+    + apply IH.
+Qed.
+
+Theorem revoke_many_eq_fold : forall ts s r w id,
+  revoke_loop s r w ts id = fold_left (then_revoke r w id) ts (OExec, s).
+Proof.
+  induction ts as [|t ts IH]; intros s r w id; [reflexivity|].
+  cbn [fold_left then_revoke]. cbn [revoke_loop].
+  destruct (grant_permission s id t _) as [[e|] s'].
+  - symmetry. apply fold_then_revoke_stuck. discriminate.
+  - apply IH.
+Qed.
+
+Definition bytes_eq_dec : forall a b : bytes, {a = b} + {a <> b} := list_eq_dec N.eq_dec.
+
+Lemma get_permission_after : forall s id t0 p s' t,
+  grant_permission s id t0 p = (None, s') ->
+  get_permission s' id t = if bytes_eqb t t0 then p else get_permission s id t.
+Proof.
+  intros s id t0 p s' t G. apply grant_permission_entry in G as [G1 G2]. rewrite !get_permission_entry.
+  destruct (bytes_eqb t t0) eqn:E; beq.
+  - subst. rewrite G1. reflexivity.
+  - rewrite G2 by exact E. reflexivity.
+Qed.
+
+(** After an executed multi-type GRANT every listed type holds exactly what it held before plus
+    the granted permissions — whatever the user holds on the other listed types, in whatever
+    order they are listed, listed once or several times — and every other type is untouched. *)
+Theorem grant_many_entry : forall ts s r w id s',
+  grant_loop s r w ts id = (OExec, s') ->
+  (forall t, In t ts ->
+     entry s' id t = Some (mkPerm (p_read (get_permission s id t) || r) (p_write (get_permission s id t) || w))) /\
+  (forall t, ~ In t ts -> entry s' id t = entry s id t).
+Proof.
+  induction ts as [|t0 ts IH]; intros s r w id s' H; cbn [grant_loop] in H.
+  - inversion H; subst. split; [intros t []|reflexivity].
+  - destruct (negb (smem t0 (st_schemas s))); [discriminate|].
+    destruct (grant_permission s id t0 _) as [[e|] s1] eqn:G; [discriminate|].
+    destruct (IH s1 r w id s' H) as [I1 I2].
+    pose proof (grant_permission_entry _ _ _ _ _ G) as [G1 G2].
+    split.
+    + intros t Hin. destruct (in_dec bytes_eq_dec t ts) as [Hts|Hts].
+      * rewrite (I1 t Hts). rewrite (get_permission_after _ _ _ _ _ t G).
+        destruct (bytes_eqb t t0) eqn:E; [|reflexivity]. beq. subst t0. cbn [p_read p_write].
+        rewrite <- !orb_assoc, !orb_diag. reflexivity.
+      * destruct Hin as [<-|Hin]; [|contradiction]. rewrite (I2 t0 Hts). exact G1.
+    + intros t Hn. rewrite I2 by (intro C; apply Hn; right; exact C).
+      apply G2. intro C. apply Hn. left. congruence.
+Qed.
+
+Theorem revoke_many_entry : forall ts s r w id s',
+  revoke_loop s r w ts id = (OExec, s') ->
+  (forall t, In t ts ->
+     entry s' id t = Some (mkPerm (p_read (get_permission s id t) && negb r) (p_write (get_permission s id t) && negb w))) /\
+  (forall t, ~ In t ts -> entry s' id t = entry s id t).
+Proof.
+  induction ts as [|t0 ts IH]; intros s r w id s' H; cbn [revoke_loop] in H.
+  - inversion H; subst. split; [intros t []|reflexivity].
+  - destruct (grant_permission s id t0 _) as [[e|] s1] eqn:G; [discriminate|].
+    destruct (IH s1 r w id s' H) as [I1 I2].
+    pose proof (grant_permission_entry _ _ _ _ _ G) as [G1 G2].
+    split.
+    + intros t Hin. destruct (in_dec bytes_eq_dec t ts) as [Hts|Hts].
+      * rewrite (I1 t Hts). rewrite (get_permission_after _ _ _ _ _ t G).
+        destruct (bytes_eqb t t0) eqn:E; [|reflexivity]. beq. subst t0. cbn [p_read p_write].
+        rewrite <- !andb_assoc, !andb_diag. reflexivity.
+      * destruct Hin as [<-|Hin]; [|contradiction]. rewrite (I2 t0 Hts). exact G1.
+    + intros t Hn. rewrite I2 by (intro C; apply Hn; right; exact C).
+      apply G2. intro C. apply Hn. left. congruence.
+Qed.
+
+(** granting a permission does not change who is an admin, so the handler's admin check gives
+    the same answer before every step of the loop *)
+Lemma grant_permission_is_admin : forall s id t p s' x, wf s ->
+  grant_permission s id t p = (None, s') -> is_admin (st_cache s') x = is_admin (st_cache s) x.
+Proof.
+  intros s id t p s' x W G. unfold grant_permission in G.
+  destruct (alookup id (st_users s)) as [u|] eqn:L; [|discriminate]. inversion G; subst. clear G.
+  unfold is_admin, put_user, set_users_cache. cbn [st_cache].
+  set (u' := mkUser id (u_key u) (u_active u) (u_roles u) (ainsert t p (u_perms u))).
+  destruct (bytes_eqb x id) eqn:E; beq.
+  - subst x. pose proof (update_user_at (st_cache s) u') as (A & _). cbn [u_id u'] in A. cbn zeta in A.
+    rewrite A. cbn [u_roles u']. pose proof (wf_sync s W id) as S. rewrite L in S. destruct S as (S & _). symmetry. exact S.
+  - pose proof (update_user_other (st_cache s) u' x) as (A & _); [cbn; exact E|]. exact A.
+Qed.
+
+Theorem dispatch_grant_many : forall s who r w t ts id k, reachable s ->
+  dispatch s who (CGrant r w (t :: ts) id) k =
+  match dispatch s who (CGrant r w [t] id) k with
+  | (OExec, s') => dispatch s' who (CGrant r w ts id) k
+  | other => other
+  end.
+Proof.
+  intros s who r w t ts id k R. pose proof (reachable_wf s R) as W. cbn [dispatch].
+  destruct (hcheck auth_skip_perms who (is_admin (st_cache s))) as [o|] eqn:HC.
+  { pose proof (hcheck_some_not_exec _ _ _ _ HC) as N. destruct o; try reflexivity. contradiction. }
+  cbn [grant_loop]. destruct (negb (smem t (st_schemas s))); [reflexivity|].
+  destruct (grant_permission s id t _) as [[e|] s1] eqn:G; [reflexivity|].
+  assert (HC' : hcheck auth_skip_perms who (is_admin (st_cache s1)) = None).
+  { unfold hcheck in *. destruct who as [u|]; [|discriminate].
+    rewrite (grant_permission_is_admin _ _ _ _ _ u W G). exact HC. }
+  rewrite HC'. reflexivity.
+Qed.
+
+Example grant_many_inhabited :
+  (* "rd" holds READ on ta; GRANT WRITE ON tb, ta leaves tb with WRITE only and ta with both *)
+  exists s', dispatch w_state w_root (CGrant false true [bs "tb"; bs "ta"] (bs "rd")) [] = (OExec, s') /\
+    entry s' (bs "rd") (bs "tb") = Some (mkPerm false true) /\
+    entry s' (bs "rd") (bs "ta") = Some (mkPerm true true).
+Proof. eexists. repeat split; vm_compute; reflexivity. Qed.
